@@ -36,6 +36,7 @@ import (
 	ocispec "github.com/opencontainers/image-spec/specs-go/v1"
 	"oras.land/oras-go/v2"
 	"oras.land/oras-go/v2/content/oci"
+	"oras.land/oras-go/v2/registry/remote"
 )
 
 var algOf = map[crypto.Hash]digest.Algorithm{crypto.SHA256: digest.SHA256, crypto.SHA384: digest.SHA384, crypto.SHA512: digest.SHA512}
@@ -357,9 +358,26 @@ func main() {
 		// ---- OCI: a real on-disk layout
 		dir := lib.TempDir("c07")
 		defer os.RemoveAll(dir)
-		store, err := oci.New(dir)
-		if err != nil {
-			panic(err)
+		var store oras.Target
+		overRegistry := ci%6 == 5
+		var reg *lib.FakeRegistry
+		if overRegistry {
+			// ... or a registry (in-process server speaking the distribution and referrers API)
+			reg = lib.NewFakeRegistry(1 + ci%2)
+			defer reg.Close()
+			rr, err := remote.NewRepository(reg.Host() + "/test")
+			if err != nil {
+				panic(err)
+			}
+			rr.PlainHTTP = true
+			store = rr
+			r.Event("oci-round-trips-over-a-registry")
+		} else {
+			st, err := oci.New(dir)
+			if err != nil {
+				panic(err)
+			}
+			store = st
 		}
 		layer, _ := oras.PushBytes(ctx, store, c.MediaType, content)
 		cfg, _ := oras.PushBytes(ctx, store, ocispec.MediaTypeImageConfig, []byte("{}"))
@@ -369,9 +387,14 @@ func main() {
 		artifact := ocispec.Descriptor{MediaType: ocispec.MediaTypeImageManifest, Digest: digest.FromBytes(mb), Size: int64(len(mb))}
 		store.Push(ctx, artifact, bytes.NewReader(mb))
 		store.Tag(ctx, artifact, "v1")
-		repo, err := registry.NewOCIRepository(dir, registry.RepositoryOptions{})
-		if err != nil {
-			panic(err)
+		var repo registry.Repository
+		if overRegistry {
+			repo = registry.NewRepository(store.(*remote.Repository))
+		} else {
+			var err error
+			if repo, err = registry.NewOCIRepository(dir, registry.RepositoryOptions{}); err != nil {
+				panic(err)
+			}
 		}
 		if ci%2 == 0 {
 			// a registry may resolve a descriptor with more fields than the four that are signed (OCI 1.1: artifactType, ...)
